@@ -377,3 +377,60 @@ def c_parquet(rng):
 
 
 c_parquet.n = {'quick': 25, 'thorough': 150}
+
+
+@check(('C06', 'C09', 'C12'), 'dask.row-filter-after-cached-bounds')
+def c_dask_filter(rng):
+    """multi-step: cache the partition bounds (partition_sindex / cx), filter rows, then query / pack the filtered
+    frame and query the original again: cached extents of the unfiltered frame must not be reused"""
+    import dask
+    import spatialpandas as sp
+    n = rng.choice([6, 8, 12])
+    cs = gen.case('point', rng, derive=False, n=n, p_missing=0.0)
+    df = sp.GeoDataFrame({'geometry': cs.arr, 'v': list(range(n))})
+    npart = rng.choice([2, 3])
+    xs = sorted(el[0] for el in cs.view)
+    cut = xs[len(xs) // 2]
+    recipe = dict(cs.recipe, npartitions=npart, cut=cut)
+    out = []
+    with dask.config.set(scheduler='synchronous'):
+        try:
+            ddf = _ddf(df, npart)
+            _ = ddf.partition_sindex            # caches partition bounds + index on the frame
+            keep = [i for i, el in enumerate(cs.view) if el[0] <= cut]
+            if not keep or len(keep) == n:
+                return []
+            f = ddf[ddf.v.isin(keep)]
+            exp_view = [cs.view[i] for i in keep]
+            tb = oracle.total_bounds('point', exp_view)
+            got = f.geometry.total_bounds
+            if not all(nan_eq(a, b) for a, b in zip(got, tb)):
+                out.append(V('dask.filtered-frame-total_bounds', f'{tuple(got)} vs {tb}', recipe))
+            pb = f.geometry.partition_bounds
+            parts = [f.partitions[i].compute() for i in range(f.npartitions)]
+            for k, pf in enumerate(parts):
+                e = oracle.total_bounds('point', [cs.view[i] for i in pf['v']])
+                if not all(nan_eq(a, b) for a, b in zip(pb.iloc[k].values, e)):
+                    out.append(V('dask.filtered-frame-partition_bounds', f'partition {k}: {list(pb.iloc[k].values)} vs {e}', recipe))
+                    break
+            # pack the filtered frame: distances relative to ITS extent
+            try:
+                packed = f.pack_partitions(npartitions=2, p=4).compute()
+                exp_d = sp.GeoSeries(gen.build('point', exp_view)).array.hilbert_distance(total_bounds=list(tb), p=4)
+                gotd = {int(v): int(i) for v, i in zip(packed['v'], packed.index)}
+                if [gotd[i] for i in keep] != [int(x) for x in exp_d]:
+                    out.append(V('dask.filtered-frame-pack-distances', f'{[gotd[i] for i in keep]} vs {[int(x) for x in exp_d]}', recipe))
+            except Exception:
+                pass
+            # the original frame still answers correctly after the filtered one was queried
+            far = max(el[0] for el in cs.view)
+            exp = [i for i, el in enumerate(cs.view) if el[0] >= far]
+            g = ddf.cx[far:far + 1, -100:100].compute()
+            if sorted(g['v']) != exp:
+                out.append(V('dask.original-frame-cx-after-filter', f'{sorted(g["v"])} vs {exp}', recipe))
+        except Exception as e:
+            out.append(V(f'dask.row-filter/raises-{type(e).__name__}', f'{e}', recipe))
+    return out
+
+
+c_dask_filter.n = {'quick': 15, 'thorough': 100}
